@@ -8,6 +8,12 @@ def repo_fix_commits():
     return []
 
 CHECKS = {
+ "C04": ("exploration", "fault injection on stored streams (bit flips, bursts, insertions, deletions, CRC-resealed field edits) with a content/verdict monitor",
+   "For each seed stream every single-bit flip, a burst at every byte, an insertion and a deletion at every offset and every deletion between structural boundaries is read back and the monitor asserts 'never a clean end with different content'; ~50 classes of field-level edits built with an independent container serializer (CRC32s re-sealed) must each be reported as an error, also for check-less streams.",
+   "Seeds are a sample (valid for internal/ref); modifications per seed are enumerated completely for the stated classes.", "4 C04"),
+ "C05": ("fault_enumeration", "exhaustive truncation enumeration per stream with a verdict monitor",
+   "Every proper prefix (every cut position) of each stream in the list - .xz (default and SingleStream), raw LZMA2, .lzma in three termination modes, multi-stream .xz - is opened and read; the monitor requires a non-EOF error (constructor errors count only if they are not io.EOF) and that delivered bytes are a prefix of the content; cuts on stream/padding boundaries of multi-stream files must decode cleanly.",
+   "Exhaustive per stream (see stream_exhaustive in the evidence); the stream list is a sample.", "4 C05"),
  "C06": ("exploration", "runtime monitoring of classic-LZMA writer histories incl. the explicit-size contract, with a reference decoder judging the header",
    "Runs lzma.Writer over all 225 property codes x both matchers and random (config, termination mode, sink kind, data, partition) cases, round-trips through lzma.Reader, compares the 13-byte header with what the independent decoder finds encoded, and for every sized case drives a short-write and a surplus-write history.",
    "Sampled quantifier; internal/ref decides how many bytes / whether a marker are encoded.", "4 C06"),
